@@ -95,8 +95,8 @@ fn check_point(buf: &[u8], off: usize, out: &mut Outcome, dig: &mut Fnv) -> u32 
 
 /// All byte strings of length <= maxlen (index = position in length-then-lexicographic order),
 /// every offset 0..len+9.
-struct ShortBuffers {
-    maxlen: usize,
+pub struct ShortBuffers {
+    pub maxlen: usize,
 }
 impl ShortBuffers {
     fn buf(&self, mut idx: u64) -> Vec<u8> {
@@ -145,7 +145,7 @@ impl Space for ShortBuffers {
 
 /// Byte walks: len 0..17 x base pattern x byte position x 256 values; offsets 0..len+9 and
 /// usize::MAX-8..=usize::MAX.
-struct ByteWalks;
+pub struct ByteWalks;
 const BW_RADICES: [u64; 3] = [154, 3, 256];
 fn bw_pairs() -> Vec<(usize, usize)> {
     // (len, walked position): len 0..=17, position 0..len (one dummy position for len 0)
@@ -205,7 +205,7 @@ impl Space for ByteWalks {
 
 /// Offsets far beyond the buffer: around every power of two where an offset could be narrowed,
 /// sign-converted or wrapped (2^7 .. 2^63), and the top of the usize range.
-struct FarOffsets;
+pub struct FarOffsets;
 const FAR_LENS: [usize; 8] = [0, 1, 2, 4, 8, 9, 16, 24];
 const FAR_POWS: [u32; 15] = [7, 8, 15, 16, 24, 31, 32, 33, 40, 47, 48, 56, 62, 63, 64];
 impl Space for FarOffsets {
